@@ -68,7 +68,10 @@ def r6_3(repo: Repo) -> RuleResult:
     rr = RuleResult("R6.3", "n-gram enumeration takes every run sequence[i : i + n] that fits and no other", floor=2)
     f = repo.func("vectorizers/ngram_vectorizer.py", "ngrams_of")
     seq = f.params[0]
-    appends = [n for n in walk_no_nested(f.node) if isinstance(n, _ast.Call) and norm(n.func) == "result.append"]
+    ret_names = [n.value.id for n in walk_no_nested(f.node) if isinstance(n, _ast.Return) and isinstance(n.value, _ast.Name)]
+    if not ret_names:
+        raise AnalysisError("R6.3: ngrams_of does not return its list by name")
+    appends = [n for n in walk_no_nested(f.node) if isinstance(n, _ast.Call) and norm(n.func) == "%s.append" % ret_names[0]]
     if len(appends) != 2:
         raise AnalysisError("R6.3: expected the exact and the subgram append in ngrams_of")
     from .common import parents_map, ancestors
@@ -99,7 +102,8 @@ def r6_3(repo: Repo) -> RuleResult:
         else:
             rr.ok(f, construct, "start i over range(len(seq)), guard `%s`" % norm(guards[0].test), a.lineno)
     # subgrams: lengths 1..n
-    sub = [x for x in walk_no_nested(f.node) if isinstance(x, _ast.For) and norm(x.target) == "j"]
+    top = [x for x in walk_no_nested(f.node) if isinstance(x, _ast.For) and norm(x.iter) == "range(len(%s))" % seq]
+    sub = [x for t_ in top for x in _ast.walk(t_) if isinstance(x, _ast.For) and x is not t_]
     if sub:
         if norm(sub[0].iter) == "range(1, ngram_size + 1)":
             rr.ok(f, "subgram lengths", "j over range(1, ngram_size + 1)", sub[0].lineno)
